@@ -203,4 +203,25 @@ theorem lt_countLe_iff {b : Nat} :
       have := hall (x :: xs)[i] (List.getElem_mem hi)
       omega
 
+theorem fanMonotone_map_range' (f : Nat → Nat) (hf : ∀ i, f i ≤ f (i + 1)) :
+    ∀ (k s : Nat), fanMonotone ((List.range' s k).map f) = true := by
+  intro k
+  induction k with
+  | zero => intro s; rfl
+  | succ k ih =>
+    intro s
+    cases k with
+    | zero => rfl
+    | succ k' =>
+      have h := ih (s + 1)
+      simp only [List.range'_succ, List.map_cons] at h ⊢
+      simp only [fanMonotone, Bool.and_eq_true, decide_eq_true_eq]
+      exact ⟨hf s, h⟩
+
+/-- the cumulative counts the fan-out loop produces are monotonic -/
+theorem fanMonotone_counts (l : List UInt8) :
+    fanMonotone ((List.range 256).map (fun b => countLe b l)) = true := by
+  rw [List.range_eq_range']
+  exact fanMonotone_map_range' _ (fun i => countLe_mono (by omega) l) 256 0
+
 end GixModel.C09
